@@ -43,6 +43,7 @@ import (
 const c16RotationPeriod = 2 // packets per connection ID, owned by the harness
 
 type c16MgrCfg struct {
+	wide  bool // wide alphabet (every Retire Prior To value, conflicts for every seq), shallow
 	zero  bool // the peer uses zero-length connection IDs
 	uquic bool // spec-driven client: first op advertises a limit through SetConnectionIDLimit
 }
@@ -88,8 +89,8 @@ type c16MgrBounds struct {
 }
 
 type c16Mgr struct {
-	cfg  c16MgrCfg
-	m    *connIDManager
+	cfg c16MgrCfg
+	m   *connIDManager
 	c16MgrBounds
 	twice   bool // sticky: the manager stored one sequence number in two places at some point
 	revived bool // sticky: the manager stored a sequence number again after reporting it retired
@@ -507,7 +508,7 @@ func (in *c16Mgr) Key() string {
 }
 
 func c16MgrPart(name string, cfg c16MgrCfg) explore.Part {
-	return explore.BFSPart(name, func(e explore.Env) explore.BFSSpec {
+	return c16Part(name, func(e explore.Env) explore.BFSSpec {
 		c16CheckLayout()
 		var b c16MgrBounds
 		depth := 0
@@ -520,12 +521,17 @@ func c16MgrPart(name string, cfg c16MgrCfg) explore.Part {
 		case cfg.uquic:
 			b, depth = c16MgrBounds{S: 6, nPth: 1, lean: true}, 7
 			if e.Thorough() {
-				b, depth = c16MgrBounds{S: 8, nPth: 1, lean: true}, 10
+				b, depth = c16MgrBounds{S: 8, nPth: 1, lean: true}, 9
+			}
+		case cfg.wide:
+			b, depth = c16MgrBounds{S: 5, nPth: 2, allRPT: true, confSeq: 5}, 4
+			if e.Thorough() {
+				b, depth = c16MgrBounds{S: 6, nPth: 2, allRPT: true, confSeq: 6}, 5
 			}
 		default:
 			b, depth = c16MgrBounds{S: 5, nPth: 1, confSeq: 1}, 7
 			if e.Thorough() {
-				b, depth = c16MgrBounds{S: 6, nPth: 2, allRPT: true, confSeq: 6}, 9
+				b, depth = c16MgrBounds{S: 6, nPth: 2, confSeq: 1}, 8
 			}
 		}
 		bound := fmt.Sprintf("depth %d", depth)
